@@ -1,5 +1,5 @@
 (* Proofs about Model/Layers.v. *)
-From Coq Require Import Lia ZArith QArith Qfield ZifyNat.
+From Coq Require Import Lia ZArith QArith Qabs Qfield ZifyNat Lqa.
 From Flaxm Require Import Lib.Harness Model.Layers.
 Ltac Zify.zify_post_hook ::= Z.div_mod_to_equations.
 Open Scope Z_scope.
@@ -150,3 +150,21 @@ Qed.
 (* BatchNorm's running statistics: momentum 1 keeps the old value, momentum 0 takes the batch statistic *)
 Theorem running_extremes old batch : running 1 old batch == old /\ running 0 old batch == batch.
 Proof. unfold running. split; ring. Qed.
+
+(* ------------------------------------------------------------------------------------------------ *)
+(* the normalised output without square roots: at tolerance 0 the check says that y - bias is the root of
+   (y - bias)^2 (var + eps) = scale^2 (x - mean)^2 with the sign of scale (x - mean)                     *)
+Lemma qclose_exact x y : qclose 0 x y = true -> x == y.
+Proof.
+  unfold qclose. intros H. apply Qle_bool_imp_le in H. rewrite Qmult_0_l in H.
+  assert (A : x - y <= 0) by (eapply Qle_trans; [apply Qle_Qabs|exact H]).
+  assert (B : - (x - y) <= 0) by (eapply Qle_trans; [apply Qle_Qabs|]; rewrite Qabs_opp; exact H).
+  lra.
+Qed.
+
+Theorem norm_ok_exact eps x mean var scale bias y : norm_ok 0 eps x mean var scale bias y = true ->
+  (y - bias) * (y - bias) * (var + eps) == scale * scale * ((x - mean) * (x - mean)) /\ 0 <= (y - bias) * scale * (x - mean).
+Proof.
+  unfold norm_ok. intros H. apply andb_true_iff in H as [H1 H2]. split; [now apply qclose_exact|].
+  apply Qle_bool_imp_le in H2. lra.
+Qed.
